@@ -20,6 +20,8 @@ func exportJSON(v value.Value) ([]byte, error) {
 
 // expected decoding of the exported document, in encoding/json's generic representation
 func (t *Tree) expectJSON(built value.Value) any {
+	// Format / Link wrappers are transparent for JSON: the expectation is that of the unwrapped tree
+	built = t.unwrapBuilt(built)
 	switch t.Kind {
 	case "list":
 		sl, _ := built.(*value.List).ToSlice(funcGen.NewEmptyStack[value.Value]())
@@ -59,8 +61,81 @@ func c17Signature(t *Tree) string {
 			}
 		}
 	})
+	t.Walk(func(x *Tree) {
+		if (x.Kind == "list" || x.Kind == "map") && len(x.Wrap) > 0 {
+			if len(x.Wrap) == 1 {
+				cls["container-under-1-wrapper"] = true
+			} else {
+				cls["container-under-wrapper-stack"] = true
+			}
+		}
+	})
 	ks := sortedKeys(cls)
 	return fmt.Sprint(ks)
+}
+
+func wrapShape(ws []TreeWrap) string {
+	s := ""
+	for _, w := range ws {
+		switch {
+		case w.Kind == "link":
+			s += "L"
+		case w.Cell:
+			s += "C"
+		default:
+			s += "F"
+		}
+	}
+	return s
+}
+
+func (r *Rng) genWrap() TreeWrap {
+	if r.Chance(0.45) {
+		return TreeWrap{Kind: "link", Link: []string{"u", "http://x/?a=1&b=\"2\"", ""}[r.Pick(3)]}
+	}
+	return TreeWrap{Kind: "format", Style: []string{"nil", "str", "map", "closure"}[r.Pick(4)], Cell: r.Chance(0.3), ColSpan: r.Pick(4)}
+}
+
+// addWraps puts Format/Link wrapper stacks of depth 1-4 around values at every level of the tree
+func (r *Rng) addWraps(t *Tree, p float64) {
+	t.Walk(func(x *Tree) {
+		if !r.Chance(p) {
+			return
+		}
+		d := 1
+		switch k := r.Pick(20); {
+		case k < 7:
+			d = 1
+		case k < 14:
+			d = 2
+		case k < 18:
+			d = 3
+		default:
+			d = 4
+		}
+		for i := 0; i < d; i++ {
+			x.Wrap = append(x.Wrap, r.genWrap())
+		}
+	})
+}
+
+func wrapped(t *Tree, shape string) *Tree {
+	c := *t
+	for _, ch := range shape {
+		switch ch {
+		case 'L':
+			c.Wrap = append(c.Wrap, TreeWrap{Kind: "link", Link: "u"})
+		case 'C':
+			c.Wrap = append(c.Wrap, TreeWrap{Kind: "format", Style: "str", Cell: true, ColSpan: 2})
+		case 'M':
+			c.Wrap = append(c.Wrap, TreeWrap{Kind: "format", Style: "map"})
+		case 'X':
+			c.Wrap = append(c.Wrap, TreeWrap{Kind: "format", Style: "closure"})
+		default:
+			c.Wrap = append(c.Wrap, TreeWrap{Kind: "format", Style: "str"})
+		}
+	}
+	return &c
 }
 
 func c17Case(t *Tree, id int, sum *Summary, cw *CaseWriter) {
@@ -76,6 +151,19 @@ func c17Case(t *Tree, id int, sum *Summary, cw *CaseWriter) {
 		sum.Count("node_kinds", x.Kind)
 		if x.Kind == "list" || x.Kind == "map" {
 			sum.Count("representations", x.Kind+":"+x.Repr)
+		}
+		if len(x.Wrap) > 0 {
+			what := "scalar"
+			if x.Kind == "list" || x.Kind == "map" {
+				what = x.Kind
+				if len(x.Wrap) >= 2 {
+					special++
+				}
+			}
+			sum.Count("wrapper_stacks", wrapShape(x.Wrap)+"@"+what)
+			sum.Count("wrapper_depth", fmt.Sprint(len(x.Wrap)))
+		} else {
+			sum.Count("wrapper_depth", "0")
 		}
 		strs := append([]string{}, x.Keys...)
 		if x.Kind == "str" {
@@ -93,7 +181,9 @@ func c17Case(t *Tree, id int, sum *Summary, cw *CaseWriter) {
 	sum.Count("depth", fmt.Sprint(t.Depth()))
 	sum.Count("output_len", bucket(len(out)))
 	if special > 0 {
-		sum.Nontriv(string(out))
+		shapes := ""
+		t.Walk(func(x *Tree) { shapes += wrapShape(x.Wrap) + "," })
+		sum.Nontriv(string(out) + "\x00" + shapes)
 	}
 	human := map[string]any{"value": t.Human(), "exported": string(out), "repro": t, "signature": c17Signature(t)}
 	sum.Cases[fmt.Sprint(id)] = human
@@ -104,16 +194,94 @@ func c17Case(t *Tree, id int, sum *Summary, cw *CaseWriter) {
 	var dec any
 	exp := t.expectJSON(built)
 	expS, _ := json.Marshal(exp)
+	what, obs := "", ""
 	if err := json.Unmarshal(out, &dec); err != nil {
-		sum.GoViolations = append(sum.GoViolations, GoViolation{CaseID: id, What: "encoding/json rejects the exported document: " + err.Error(),
-			Sig: c17Signature(t), Human: human, Expected: string(expS), Observed: string(out)})
-		return
-	}
-	if !reflect.DeepEqual(dec, exp) {
+		what, obs = "encoding/json rejects the exported document: "+err.Error(), string(out)
+	} else if !reflect.DeepEqual(dec, exp) {
 		decS, _ := json.Marshal(dec)
-		sum.GoViolations = append(sum.GoViolations, GoViolation{CaseID: id, What: "exported document decodes to a different structure/text",
-			Sig: c17Signature(t), Human: human, Expected: string(expS), Observed: string(decS)})
+		what, obs = "exported document decodes to a different structure/text", string(decS)
 	}
+	if what != "" {
+		sig := c17Signature(t)
+		// the same tree without its Format/Link wrappers: if that is exported correctly the wrappers are the cause
+		if bare := stripWraps(t); hasWraps(t) && c17GoOK(bare) {
+			sig = "wrappers:" + wrapSignature(t)
+			what += " (the same tree without its style/link wrappers is exported correctly)"
+		}
+		human["signature"] = sig
+		sum.GoViolations = append(sum.GoViolations, GoViolation{CaseID: id, What: what, Sig: sig, Human: human, Expected: string(expS), Observed: obs})
+	}
+}
+
+func hasWraps(t *Tree) bool {
+	any := false
+	t.Walk(func(x *Tree) { any = any || len(x.Wrap) > 0 })
+	return any
+}
+
+func stripWraps(t *Tree) *Tree {
+	c := *t
+	c.Wrap = nil
+	c.Items = nil
+	for _, it := range t.Items {
+		c.Items = append(c.Items, stripWraps(it))
+	}
+	return &c
+}
+
+// keepOnly copies the tree keeping the wrappers of the n-th node (walk order) only
+func keepOnly(t *Tree, n int) *Tree {
+	i := 0
+	var cp func(x *Tree) *Tree
+	cp = func(x *Tree) *Tree {
+		c := *x
+		if i != n {
+			c.Wrap = nil
+		}
+		i++
+		c.Items = nil
+		for _, it := range x.Items {
+			c.Items = append(c.Items, cp(it))
+		}
+		return &c
+	}
+	return cp(t)
+}
+
+// the first wrapped node whose wrappers alone make the export wrong: kind of value and depth of its stack
+func wrapSignature(t *Tree) string {
+	var nodes []*Tree
+	t.Walk(func(x *Tree) { nodes = append(nodes, x) })
+	class := func(x *Tree) string {
+		what := "scalar"
+		if x.Kind == "list" || x.Kind == "map" {
+			what = "container"
+		}
+		if len(x.Wrap) == 1 {
+			return what + "-under-1-wrapper"
+		}
+		return what + "-under-wrapper-stack"
+	}
+	for i, x := range nodes {
+		if len(x.Wrap) > 0 && !c17GoOK(keepOnly(t, i)) {
+			return class(x)
+		}
+	}
+	return "combination"
+}
+
+// the Go-side oracle alone, without recording anything
+func c17GoOK(t *Tree) bool {
+	built := t.Build()
+	out, err := exportJSON(built)
+	if err != nil {
+		return false
+	}
+	var dec any
+	if json.Unmarshal(out, &dec) != nil {
+		return false
+	}
+	return reflect.DeepEqual(dec, t.expectJSON(built))
 }
 
 func cmdC17(seed int64, tier, outDir string) {
@@ -123,7 +291,7 @@ func cmdC17(seed int64, tier, outDir string) {
 	}
 	r := NewRng(seed)
 	sum := NewSummary("C17", seed, tier)
-	sum.Rule = "value trees (depth<=5, lists and maps in every representation the expression language builds, scalars of all kinds, strings/keys from a stratified Unicode generator incl. quote, backslash, C0 controls, U+2028/9, astral) exported through the real JSON exporter; non-trivial = the tree contains at least one character outside printable ASCII or a quote/backslash; distinct by exported bytes"
+	sum.Rule = "value trees (depth<=5, lists and maps in every representation the expression language builds, scalars of all kinds, strings/keys from a stratified Unicode generator incl. quote, backslash, C0 controls, U+2028/9, astral) exported through the real JSON exporter; Format/Link wrapper stacks of depth 0-4 (every order; Format with nil/string/map/closure style, Cell, ColSpan) around scalars, lists, maps, list elements and map values at every level; non-trivial = the tree contains at least one character outside printable ASCII or a quote/backslash, or a list/map under a wrapper stack of depth >= 2; distinct by exported bytes and wrapper shapes"
 	cw := NewCaseWriter(outDir, "From P2 Require Import Base.Prelude Exp.Json Run.C17Run.", "c17_case", "c17_id", "c17_im", "c17_is", 250)
 	id := 0
 	if optReplay != "" {
@@ -151,9 +319,26 @@ func cmdC17(seed int64, tier, outDir string) {
 		id++
 		c17Case(&Tree{Kind: "map", Repr: "listmap", Keys: []string{"k" + s}, Items: []*Tree{{Kind: "int", I: 1}}}, id, sum, cw)
 	}
+	// wrapper stacks: every order of depth 2, deeper stacks, at the root, as list element and as map value
+	lst := &Tree{Kind: "list", Repr: "eager", Items: []*Tree{{Kind: "int", I: 1}, {Kind: "int", I: 2}}}
+	mp := &Tree{Kind: "map", Repr: "listmap", Keys: []string{"k"}, Items: []*Tree{{Kind: "str", S: "v"}}}
+	for _, shape := range []string{"F", "L", "C", "M", "X", "FF", "FL", "LF", "LL", "CF", "FC", "LC", "XM", "FLF", "LFL", "LLL", "FFF", "CLM", "LFLF", "FFLL", "XLCM"} {
+		for _, inner := range []*Tree{lst, mp, {Kind: "str", S: "a\"b"}} {
+			w := wrapped(inner, shape)
+			id++
+			c17Case(w, id, sum, cw)
+			id++
+			c17Case(&Tree{Kind: "list", Repr: "lazy-map", Items: []*Tree{{Kind: "int", I: 0}, w}}, id, sum, cw)
+			id++
+			c17Case(&Tree{Kind: "map", Repr: "real", Keys: []string{"a", "b"}, Items: []*Tree{w, {Kind: "bool", B: true}}}, id, sum, cw)
+		}
+	}
 	for i := 0; i < n; i++ {
 		id++
 		t := r.GenTree(1+r.Pick(5), r.Chance(0.85), 12)
+		if i%5 != 0 {
+			r.addWraps(t, []float64{0.1, 0.25, 0.5}[r.Pick(3)])
+		}
 		c17Case(t, id, sum, cw)
 	}
 	cw.Flush()
